@@ -28,9 +28,9 @@ def spec(tier):
                     sym["c2"] = I(0, 2)
                 if clo > 0 or nops >= 3:
                     sym["zp1"] = Z
-                if th and (clo > 0 and nops >= 3):
+                if th and (clo > 0 and nops == 3):
                     sym["zp2"] = Z
-                if nops >= 3 and not th:
+                if (nops >= 3 and not th) or (th and nops >= 4 and clo > 0):
                     for (plo, phi) in ((-4.0, 0.0), (0.0, 4.0)):
                         s2 = dict(sym)
                         s2["zp0"] = ("float", plo, phi)
